@@ -56,6 +56,8 @@ class CustomScalar:
 
     @staticmethod
     def coerce_output(v):
+        if v == "nullify":
+            return None  # a scalar implementation may serialise a value to null: at a non-null position that is a field failure
         if isinstance(v, str):
             return "out:" + v
         return INVALID
